@@ -125,8 +125,8 @@ def run(ck, replay=None):
             cid += 1
             n = t.count('%d')
             jobs.append({'id': cid, 'src': (t % tuple([cid] * n)) if n else t, 'timeout_ms': 60000})
-    for rep in range(2 if quick else 8):
-        for scid, name, src in stress_programs(cid, 120 if quick else 300):
+    for rep in range(3 if quick else 8):
+        for scid, name, src in stress_programs(cid, 160 if quick else 300):
             jobs.append({'id': scid, 'src': src, 'timeout_ms': 240000})
             cid = scid
     rng.shuffle(jobs)
